@@ -279,4 +279,172 @@ theorem callback_commutes (C : Conf) (t u : Nat) (htu : t ≠ u) (hp : (C.loc t)
           simp only [Option.bind_some, upd_other _ _ _ _ htu, hpt]
           rw [upd_comm _ t u _ _ htu]
 
+/-! ### the invariant of the registry along the one-at-a-time execution -/
+
+/-- the copy handed to the destination half of `RegisterFromNotifier` is a consistent registry (it is: it was copied
+    inside a bracket of the source notifier, `opOk_copyOut`) -/
+def OpOk : ROp → Prop
+  | .mergeIn p nm b => Inv (ofMaps p nm b)
+  | _ => True
+
+theorem opOk_copyOut (s : NSt) (h : Inv s) : Inv (ofMaps s.prod s.names s.batch) :=
+  ⟨h.prodKeys, h.sets, h.nameKeys, h.consistent, h.nonempty, h.batchIff, h.batchNodup, fun _ => rfl⟩
+
+/-- the two halves of `RegisterFromNotifier` compose to the sequential `mergeFrom` -/
+theorem mergeIn_copyOut (s o : NSt) : (rrun (.mergeIn o.prod o.names o.batch) s).2 = mergeFrom s o := rfl
+
+/-- brackets taken with `RLock` do not write -/
+theorem rrun_read_pure (s : NSt) (raw : List Nat) :
+    (rrun .enabledQ s).2 = s ∧ (rrun .levelQ s).2 = s ∧ (rrun (.collect raw) s).2 = s ∧ (rrun .copyOut s).2 = s :=
+  ⟨rfl, rfl, rfl, rfl⟩
+
+theorem inv_rrun (op : ROp) (s : NSt) (h : Inv s) (ho : OpOk op) : Inv (rrun op s).2 := by
+  cases op with
+  | register t p raws => exact inv_register s h t p raws
+  | unregister t => exact inv_unregister s h t
+  | setEnabled b => exact inv_setEnabled s h b
+  | reset => exact inv_reset s
+  | enabledQ => exact h
+  | levelQ => exact h
+  | startSnap => exact inv_startBatch s h
+  | endSnap => exact inv_endBatch s h
+  | collect raw => exact h
+  | copyOut => exact h
+  | mergeIn p nm b => exact inv_mergeFrom s _ h ho
+
+theorem inv_seqExec (acq : List (Nat × ROp)) (s : NSt) (h : Inv s) (ho : ∀ x ∈ acq, OpOk x.2) :
+    Inv (seqExec rrun s acq).2 := by
+  induction acq generalizing s with
+  | nil => exact h
+  | cons x l ih =>
+    obtain ⟨t, op⟩ := x
+    simp only [seqExec]
+    exact ih _ (inv_rrun op s h (ho (t, op) (by simp))) (fun y hy => ho y (List.mem_cons_of_mem _ hy))
+
+theorem mem_opsOf (t : Nat) (op : ROp) (l : List (Nat × ROp)) (h : (t, op) ∈ l) : op ∈ opsOf t l := by
+  unfold opsOf
+  exact List.mem_map.mpr ⟨(t, op), List.mem_filter.mpr ⟨h, by simp⟩, rfl⟩
+
+/-! ### the one-at-a-time reference, taken apart -/
+
+theorem seqExec_append (run : ROp → NSt → RRes × NSt) (s : NSt) (a b : List (Nat × ROp)) :
+    (seqExec run s (a ++ b)).2 = (seqExec run (seqExec run s a).2 b).2 := by
+  induction a generalizing s with
+  | nil => rfl
+  | cons x l ih => obtain ⟨t, op⟩ := x; simp only [List.cons_append, seqExec]; exact ih _
+
+theorem seqLocal_append (L : Nat → Local) (s : NSt) (a b : List (Nat × ROp)) :
+    seqLocal pan nid L s (a ++ b) = seqLocal pan nid (seqLocal pan nid L s a) (seqExec rrun s a).2 b := by
+  induction a generalizing L s with
+  | nil => rfl
+  | cons x l ih => obtain ⟨t, op⟩ := x; simp only [List.cons_append, seqLocal, seqExec]; exact ih _ _
+
+/-- brackets of other goroutines do not touch the local data of `t` -/
+theorem seqLocal_other (L : Nat → Local) (s : NSt) (l : List (Nat × ROp)) (t : Nat) (h : ∀ x ∈ l, x.1 ≠ t) :
+    seqLocal pan nid L s l t = L t := by
+  induction l generalizing L s with
+  | nil => rfl
+  | cons x l ih =>
+    obtain ⟨u, op⟩ := x
+    simp only [seqLocal]
+    rw [ih _ _ (fun y hy => h y (List.mem_cons_of_mem _ hy))]
+    have : t ≠ u := fun e => h (u, op) (by simp) e.symm
+    exact upd_other _ _ _ _ this
+
+theorem onReturn_made (l : Local) (op : ROp) (r : RRes) : (onReturn pan nid l op r).made = l.made := by
+  cases op <;> cases r <;> rfl
+
+theorem onReturn_flush_all (l : Local) (op : ROp) (r : RRes) :
+    (onReturn pan nid (flush l) op r).all = l.all ++ (onReturn pan nid (flush l) op r).pending := by
+  simp only [Local.all, onReturn_made]; rfl
+
+/-- the callback list of a goroutine only grows -/
+theorem seqLocal_all_ext (L : Nat → Local) (s : NSt) (l : List (Nat × ROp)) (t : Nat) :
+    ∃ ext, (seqLocal pan nid L s l t).all = (L t).all ++ ext := by
+  induction l generalizing L s with
+  | nil => exact ⟨[], by simp [seqLocal]⟩
+  | cons x l ih =>
+    obtain ⟨u, op⟩ := x
+    simp only [seqLocal]
+    obtain ⟨ext, he⟩ := ih (upd L u (onReturn pan nid (flush (L u)) op (rrun op s).1)) (rrun op s).2
+    by_cases hu : t = u
+    · subst hu
+      rw [upd_same, onReturn_flush_all] at he
+      exact ⟨(onReturn pan nid (flush (L t)) op (rrun op s).1).pending ++ ext, by rw [he, List.append_assoc]⟩
+    · rw [upd_other _ _ _ _ hu] at he; exact ⟨ext, he⟩
+
+/-- sorting the collected table is the delivery list of the sequential model -/
+theorem sortTbl_collectTbl (s : NSt) (raw : List Nat) : sortTbl (collectTbl s raw) = notify s raw := by
+  unfold sortTbl collectTbl notify
+  by_cases he : s.enabled = true
+  · simp only [he, if_true, Bool.not_true, Bool.false_eq_true, if_false]
+    by_cases hn : normalize raw = []
+    · simp [hn, prefixes, gather]
+    · simp only [hn, if_false]; rfl
+  · have : s.enabled = false := by cases hb : s.enabled <;> simp_all
+    simp [this]
+
+/-- **the callbacks of one `Notify`**: if goroutine `t`'s two brackets of a `Notify(raw)` are linearized at positions
+    `pre₁` (the `Enabled()` check) and `pre₁ ++ _ :: mid` (the collection), with anything of other goroutines in between,
+    then in the one-at-a-time execution `t`'s callback list is `before ++ snapshot ++ after` where the snapshot is
+    the delivery of the sequential model at ONE registry state `sL` of that execution — the state at the collection if the
+    check saw the notifier enabled, the state at the check otherwise -/
+theorem seqLocal_notify (s₀ : NSt) (pre₁ mid post : List (Nat × ROp)) (t : Nat) (raw : List Nat)
+    (hmid : ∀ x ∈ mid, x.1 ≠ t) :
+    let s₁ := (seqExec rrun s₀ pre₁).2
+    let s₂ := (seqExec rrun s₁ mid).2
+    let sL := if s₁.enabled then s₂ else s₁
+    ∃ after, (seqLocal pan nid (fun _ => {}) s₀ (pre₁ ++ (t, .enabledQ) :: (mid ++ (t, .collect raw) :: post)) t).all =
+      (seqLocal pan nid (fun _ => {}) s₀ pre₁ t).all ++ deliverAll pan nid (normalize raw) (notify sL raw) ++ after := by
+  intro s₁ s₂ sL
+  rw [seqLocal_append]
+  simp only [seqLocal]
+  rw [seqLocal_append]
+  simp only [seqLocal]
+  generalize hL1 : seqLocal pan nid (fun _ => {}) s₀ pre₁ = L1
+  -- after the Enabled() bracket
+  have hs1 : (rrun .enabledQ (seqExec rrun s₀ pre₁).2).2 = s₁ := rfl
+  rw [hs1]
+  generalize hL2 : upd L1 t (onReturn pan nid (flush (L1 t)) .enabledQ (rrun .enabledQ s₁).1) = L2
+  have hL2t : L2 t = { flush (L1 t) with en := s₁.enabled } := by rw [← hL2, upd_same]; rfl
+  -- the brackets of the others
+  have hL3 : seqLocal pan nid L2 s₁ mid t = L2 t := seqLocal_other pan nid L2 s₁ mid t hmid
+  rw [hL3]
+  have hs2 : (rrun (.collect raw) (seqExec rrun s₁ mid).2).2 = s₂ := rfl
+  rw [hs2]
+  obtain ⟨ext, he⟩ := seqLocal_all_ext pan nid
+    (upd (seqLocal pan nid L2 s₁ mid) t (onReturn pan nid (flush (L2 t)) (.collect raw) (rrun (.collect raw) s₂).1)) s₂ post t
+  refine ⟨ext, ?_⟩
+  show (seqLocal pan nid (upd (seqLocal pan nid L2 s₁ mid) t
+      (onReturn pan nid (flush (L2 t)) (.collect raw) (rrun (.collect raw) s₂).1)) s₂ post t).all = _
+  rw [he, upd_same, onReturn_flush_all]
+  have hall : (L2 t).all = (L1 t).all := by rw [hL2t]; simp [Local.all, flush]
+  have hen : (flush (L2 t)).en = s₁.enabled := by rw [hL2t]; rfl
+  have hpend : (onReturn pan nid (flush (L2 t)) (.collect raw) (rrun (.collect raw) s₂).1).pending =
+      deliverAll pan nid (normalize raw) (notify sL raw) := by
+    show (if (flush (L2 t)).en = true then deliverAll pan nid (normalize raw) (sortTbl (collectTbl s₂ raw)) else []) = _
+    rw [hen, sortTbl_collectTbl]
+    by_cases h1 : s₁.enabled = true
+    · simp [sL, h1]
+    · have h1' : s₁.enabled = false := by cases hb : s₁.enabled <;> simp_all
+      simp [sL, h1', notify, deliverAll]
+  rw [hall, hpend]
+
+/-- the callbacks of any one bracket of goroutine `t`, in the one-at-a-time execution: what the local code installs for
+    the result the bracket returns at its position -/
+theorem seqLocal_bracket (s₀ : NSt) (pre post : List (Nat × ROp)) (t : Nat) (op : ROp) :
+    let s := (seqExec rrun s₀ pre).2
+    let lt := seqLocal pan nid (fun _ => {}) s₀ pre t
+    ∃ after, (seqLocal pan nid (fun _ => {}) s₀ (pre ++ (t, op) :: post) t).all =
+      lt.all ++ (onReturn pan nid (flush lt) op (rrun op s).1).pending ++ after := by
+  intro s lt
+  rw [seqLocal_append]
+  simp only [seqLocal]
+  obtain ⟨ext, he⟩ := seqLocal_all_ext pan nid
+    (upd (seqLocal pan nid (fun _ => {}) s₀ pre) t (onReturn pan nid (flush lt) op (rrun op s).1)) (rrun op s).2 post t
+  refine ⟨ext, ?_⟩
+  show (seqLocal pan nid (upd (seqLocal pan nid (fun _ => {}) s₀ pre) t
+      (onReturn pan nid (flush lt) op (rrun op s).1)) (rrun op s).2 post t).all = _
+  rw [he, upd_same, onReturn_flush_all]
+
 end NtC
